@@ -262,7 +262,82 @@ U_FFROWS = Unit(P + '/far-field-tables', ['Far_Field_Pattern.db_as_mininec', 'Fa
                 canaries=[Canary('far-field-rows-labelled-with-sorted-angles', 'Far_Field_Pattern.db_as_mininec', _RowsSortedAngles,
                                  [P + '/far-field tables/db_as_mininec/'])])
 
-UNITS = [U_ANGLE, U_GRID, U_STRUCT, U_FFROWS]
+
+
+# ---------------------------------------------------------------- near-field points: order (small concrete counts)
+ORDER_SHAPES = [(2, 3, 2), (3, 1, 2), (1, 2, 1)]
+
+
+def t_point_order(eng):
+    """The grid set-up of compute_near_field (from `self.nf_param = ...` through `self.near_field_coord = ...`) executed
+    for small concrete counts with symbolic starts and increments, then the REAL near_field_iter: exactly Nx*Ny*Nz
+    points; point number q = ix + Nx*(iy + Ny*iz) (x runs fastest, z slowest) is start + (ix, iy, iz) * increment.
+    np.meshgrid / flatten / np.flip / .T are executed by numpy itself on arrays of symbolic objects."""
+    n = P + '/near-field point order/'
+    nx, ny, nz = ORDER_SHAPES[eng.choose(len(ORDER_SHAPES))]
+    m = SObj('Mininec', label='m')
+    start = tuple(fresh_real('s%d' % k) for k in range(3))
+    inc = tuple(fresh_real('i%d' % k) for k in range(3))
+    f = eng.get_fnode('Mininec.compute_near_field')
+    tgt = [ast.unparse(st.targets[0]) if isinstance(st, ast.Assign) else None for st in f.body]
+    if 'self.nf_param' not in tgt or 'self.near_field_coord' not in tgt:
+        from pyvc.source import Unresolved
+        raise Unresolved('grid set-up of compute_near_field')
+    k0, k1 = tgt.index('self.nf_param'), tgt.index('self.near_field_coord')
+    # between them stand the power bookkeeping statements: executed too (they need the powers)
+    m.fields.update({'wavelen': fresh_real('wavelen'), 'power': fresh_real('power')})
+    eng.assume(r_cmp('>', m.fields['power'], 0))
+    eng.assume(r_cmp('>', m.fields['wavelen'], 0))
+    env = {'self': m, 'start': start, 'inc': inc, 'nvec': (nx, ny, nz), 'pwr': None}
+    eng.frames.append({'fref': eng.fref('Mininec.compute_near_field'), 'env': env,
+                       'qual': 'Mininec.compute_near_field', 'node': f})
+    try:
+        eng.exec_block(f.body[k0:k1 + 1], env)
+    finally:
+        eng.frames.pop()
+    eng.inline.add('Mininec.near_field_iter')
+    pts = eng.call_qual('Mininec.near_field_iter', [m])
+    items = eng.concrete_items(pts)
+    eng.cover('point-order-%d%d%d' % (nx, ny, nz))
+    N = nx * ny * nz
+    eng.oblige(n + 'exactly-Nx*Ny*Nz-points', items is not None and len(items) == N, detail=str(None if items is None else len(items)))
+    if items is None or len(items) != N:
+        return
+    q = 0
+    good = True
+    for iz in range(nz):
+        for iy in range(ny):
+            for ix in range(nx):
+                pt = items[q]
+                co = pt.data if isinstance(pt, NDArr) else list(pt)
+                exp = [r_add(start[0], r_mul(ix, inc[0])), r_add(start[1], r_mul(iy, inc[1])), r_add(start[2], r_mul(iz, inc[2]))]
+                eng.oblige(n + 'point-q-is-start+(ix,iy,iz)*increment-with-x-fastest-and-z-slowest',
+                           len(co) == 3 and bterm(b_and(*[num_eq(a, b) for a, b in zip(co, exp)])))
+                q += 1
+
+
+class _NoFlip(ast.NodeTransformer):
+    def visit_Call(self, node):
+        self.generic_visit(node)
+        if ast.unparse(node.func) == 'np.flip':
+            return node.args[0]
+        return node
+
+
+class _MeshXY(ast.NodeTransformer):
+    def visit_keyword(self, node):
+        if node.arg == 'indexing':
+            node.value = ast.Constant('xy')
+        return node
+
+
+U_ORDER = Unit(P + '/near-field-point-order', ['Mininec.compute_near_field', 'Mininec.near_field_iter'], t_point_order, SCH,
+               slices={'Mininec.compute_near_field': 'from `self.nf_param = ...` through `self.near_field_coord = ...`'},
+               notes='bounded(shape): counts (2,3,2), (3,1,2), (1,2,1); starts and increments symbolic',
+               canaries=[Canary('coordinate-rows-not-flipped-back', 'Mininec.compute_near_field', _NoFlip, [P + '/near-field point order/point-q']),
+                         Canary('meshgrid-in-xy-indexing', 'Mininec.compute_near_field', _MeshXY, [P + '/near-field point order/'])])
+
+UNITS = [U_ANGLE, U_GRID, U_STRUCT, U_FFROWS, U_ORDER]
 
 
 def _num(txt):
